@@ -5,7 +5,7 @@
 (* property's quantifier; the harness draws concrete representatives of    *)
 (* each element.  TLC writes the sets as JSON (ASSUME at the end).         *)
 (***************************************************************************)
-EXTENDS Json, IOUtils, TLC, Defects
+EXTENDS Json, IOUtils, TLC, Defects, Yukawa
 
 \* C18: model classes, incl. 1L/2L cancellation and new-physics scale near the muon mass
 C18Cases ==
@@ -30,10 +30,30 @@ C19OpArg == {"amu:shared", "amu:priv", "amu_nr:shared", "amu_nr:priv", "unc:shar
 C19Sched(j, nt) == [t \in 1..nt |-> [i \in 1..(2 + (j % 3)) |-> RandomElement(C19OpArg)]]
 C19Scheds == {[nt |-> nt, lists |-> C19Sched(j, nt)] : j \in 1..60, nt \in {2, 3, 4, 8, 16}}
 
+\* C08: sector of sin(beta-alpha) x tan(beta) class x Yukawa type x CKM x basis of origin
+C08Cases == {[sec |-> a, tb |-> b, ytype |-> y, ckm |-> c, origin |-> o] :
+               a \in {"m1", "neg_hi", "neg_lo", "zero", "pos_lo", "pos_hi", "p1", "align"},
+               b \in {"small", "one", "mid", "large"}, y \in 1..6, c \in {"real", "complex"}, o \in {"mass", "gauge"}}
+
+\* C09: equivalent parametrisations and the ignore matrix (THDMModel.tla: Ignored)
+C09Cases ==
+   {[kind |-> "typed", ytype |-> y, tb |-> b, running |-> r, param |-> "-"] : y \in 1..4, b \in {"small", "one", "mid", "large"}, r \in 0..1} \cup
+   {[kind |-> "general", ytype |-> 5, tb |-> b, running |-> 0, param |-> "-"] : b \in {"small", "one", "mid", "large"}} \cup
+   UNION {{[kind |-> "ignored", ytype |-> y, tb |-> b, running |-> r, param |-> q] :
+              b \in {"small", "mid", "large"}, r \in 0..1, q \in Ignored(TypeName(y))} : y \in 1..6}
+
+\* C10: SM limit and decoupling families
+C10Cases == {[kind |-> k, ytype |-> y, tb |-> b] : k \in {"smlimit", "decouple"}, y \in 1..6, b \in {"small", "mid", "large"}}
+
+\* C20: SM layer
+C20Cases == {[kind |-> "ckm_w", cls |-> c] : c \in {"inside", "edge", "outside", "nonfinite"}} \cup
+            {[kind |-> k, cls |-> "inside"] : k \in {"ckm_a", "ew", "thdmrun"}} \cup
+            {[kind |-> "run", cls |-> c] : c \in {"inside", "edge"}}
+
 VARIABLE x
 Init == x = 0
 Next == UNCHANGED x
 Spec == Init /\ [][Next]_x
 
-ASSUME JsonSerialize(IOEnv.GEN_OUT, [C18 |-> C18Cases, C06 |-> C06Cases, C07 |-> C07Cases, C15 |-> C15Opts, C16 |-> C16Sets, C19 |-> C19Scheds])
+ASSUME JsonSerialize(IOEnv.GEN_OUT, [C18 |-> C18Cases, C06 |-> C06Cases, C07 |-> C07Cases, C15 |-> C15Opts, C16 |-> C16Sets, C19 |-> C19Scheds, C08 |-> C08Cases, C09 |-> C09Cases, C10 |-> C10Cases, C20 |-> C20Cases])
 =============================================================================
